@@ -558,8 +558,11 @@ class Producer(object):
                 fail_on_error=False,
             )
             self._req_attempts += 1
-            # add our handlers
-            d.addBoth(self._handle_send_response, payloadsByTopicPart, deferredsByTopicPart)
+            # add our handlers. Only the payloads being retried are still
+            # outstanding: should this attempt fail as a whole, the payloads
+            # acknowledged by an earlier attempt must not be sent again.
+            retried = {tp: p for tp, p in payloadsByTopicPart.items() if p in payloads}
+            d.addBoth(self._handle_send_response, retried, deferredsByTopicPart)
             return d
 
         def _cancel_retry(failure, dc):
